@@ -7,10 +7,10 @@
 set -e
 N=${1:-150}
 W=/work/cov; mkdir -p $W; cd /verif/harness
-CARGO_NET_OFFLINE=true CARGO_TARGET_DIR=$W/target RUSTFLAGS="-C instrument-coverage" cargo +nightly build --release --offline 2>&1 | tail -1
+LLVM_PROFILE_FILE=$W/build-%m-%p.profraw CARGO_NET_OFFLINE=true CARGO_TARGET_DIR=$W/target RUSTFLAGS="-C instrument-coverage" cargo +nightly build --release --offline 2>&1 | tail -1
 H=$W/target/release/cwverif-harness
 B=$(dirname $(rustc +nightly --print target-libdir))/bin
-rm -f $W/*.profraw; i=0
+rm -f $W/*.profraw; i=0   # (also the profiles instrumented build scripts / proc macros wrote while compiling)
 for sc in $(grep -ho '^// SCENARIO [a-z0-9]*' /verif/harness/src/scen_*.rs | awk '{print $3}'); do
   i=$((i+1)); LLVM_PROFILE_FILE=$W/g$i.profraw $H gen $sc --seed 1 --traces $N --ops 40 > /dev/null 2>&1 &
   d=3; [ $sc = cw3lib ] && d=2
